@@ -14,8 +14,9 @@ import (
 	inmemory_trie "github.com/ChainSafe/gossamer/pkg/trie/inmemory"
 )
 
-// One case = `alpha|op;op;...`.  `alpha` selects the two key symbols of the probe universe used
-// by `snap` (0: 0x61,0x71 — distinct high nibbles; 1: 0x61,0x62 — shared high nibble).
+// One case = `hdr|op;op;...`.  `hdr` (0..3) selects the probe universe used by `snap`: bit 0 = key
+// symbols (0: 0x61,0x71 — distinct high nibbles; 1: 0x61,0x62 — shared high nibble), bit 1 = child-trie
+// keys carry the extra first byte 0x4b (so that they differ from every main key).
 // Ops (keys / prefixes / values in hex, `-` = empty, value `nil` = Go nil):
 //   put k v | get k | del k | clr p | clrl p n | next k | ents
 //   cput c k v | cget c k | cdel c k | cclr c p | cclrl c p n | cnext c k | ckeys c p
@@ -109,19 +110,24 @@ func c08Base(ts *TrieState) string {
 	return sb.String()
 }
 
-func c08Universe(alpha string) (x, y byte) {
-	if alpha == "1" {
-		return 0x61, 0x62
+func c08Universe(alpha string) (x, y byte, sep bool) {
+	n, _ := strconv.Atoi(alpha)
+	x, y = 0x61, 0x71
+	if n&1 == 1 {
+		y = 0x62
 	}
-	return 0x61, 0x71
+	return x, y, n&2 == 2
 }
 
 func c08Snap(ts *TrieState, alpha string) string {
-	x, y := c08Universe(alpha)
+	x, y, sep := c08Universe(alpha)
 	px := append([]byte(c08ChildPrefix), x)
 	py := append([]byte(c08ChildPrefix), y)
 	mainKeys := [][]byte{{}, {x}, {x, y}, {y}, {y, x}, px, py}
 	kids := [][]byte{{x}, {x, y}, {y}}
+	if sep {
+		kids = [][]byte{{0x4b, x}, {0x4b, x, y}, {0x4b, y}}
+	}
 	inKeys := [][]byte{{}, {x}, {x, y}, {y}}
 	var parts []string
 	for _, k := range mainKeys {
@@ -261,7 +267,7 @@ func c08Op(ts *TrieState, alpha, op string) string {
 
 func c08Run(line string) string {
 	hb := strings.SplitN(line, "|", 2)
-	if len(hb) != 2 || (hb[0] != "0" && hb[0] != "1") {
+	if len(hb) != 2 || len(hb[0]) != 1 || hb[0][0] < '0' || hb[0][0] > '3' {
 		return "bad-op"
 	}
 	ts := NewTrieState(inmemory_trie.NewEmptyTrie())
